@@ -79,8 +79,8 @@ def history(chk, cl, bk, rnd, n_ops, idmap, interrupt=None):
         m = rnd.randrange(len(METAS)); hd = dict(METAS[m][0]); hd.update({"x-amz-meta-" + a: b for a, b in METAS[m][1].items()})
         how = rnd.choice(["plain", "plain", "plain", "copy", "multipart", "copy-version", "part-copy-version"])
         srcs = [(k2, i) for k2 in KEYS if k2 != k for i, mk_ in sh.stacks.get(k2, []) if not mk_]
-        if how.endswith("-version") and (not srcs or sh.status != "Enabled"):
-            how = "plain"         # (a version id in a copy source is only accepted while versioning is enabled; the property speaks of enabled buckets)
+        if how.endswith("-version") and (not srcs or sh.status == "Off"):
+            how = "plain"         # (no version ids before versioning was ever enabled)
         if how.endswith("-version"):
             # the new content is one stored version of ANOTHER key, named by its version id in the copy source; which blob that is
             # comes from reading that version first (a recorded step of its own, compared with the model like every other)
@@ -130,7 +130,34 @@ def history(chk, cl, bk, rnd, n_ops, idmap, interrupt=None):
     def do_failed_write(k):
         """a write the gateway must refuse (digest mismatch): the version history must not change; not an operation of the model"""
         import base64, zlib
-        body = blob(9000 + len(text)); how = rnd.choice(["content-md5", "crc32", "multipart-crc32"])
+        body = blob(9000 + len(text)); how = rnd.choice(["content-md5", "crc32", "multipart-crc32", "copy-of-deleted-key", "part-copy-of-deleted-key"])
+        if how.endswith("copy-of-deleted-key"):
+            # a copy whose source key currently reads as missing (its newest entry is a delete marker) has nothing to copy
+            gone = [k2 for k2 in KEYS if k2 != k and sh.stacks.get(k2) and sh.stacks[k2][0][1]]
+            if not gone:
+                how = "content-md5"
+            else:
+                k2 = rnd.choice(gone); src = urllib.parse.quote("%s/%s" % (bk, k2))
+                if how == "copy-of-deleted-key":
+                    r = cl.req("PUT", path(k), headers={"x-amz-copy-source": src})
+                else:
+                    r0 = cl.req("POST", path(k), query={"uploads": ""})
+                    if r0.status != 200: return
+                    uid = r0.xml().findtext("UploadId")
+                    r = cl.req("PUT", path(k), query={"partNumber": "1", "uploadId": uid}, headers={"x-amz-copy-source": src})
+                    cl.req("DELETE", path(k), query={"uploadId": uid})
+                ok_ = r.status == 200 and not (r.xml() is not None and r.xml().tag == "Error")
+                if text: text[-1] += " ; then a %s of the deleted key %s into %s (%d %s)" % (how, k2, k, r.status, r.code)
+                chk.count("failed-write:%s:%d" % (how, r.status))
+                if ok_:
+                    viol("deleted-key-copied", "%s from %r, whose newest entry is a delete marker (GET answers 404), is acknowledged%s" % (
+                        "CopyObject" if how == "copy-of-deleted-key" else "UploadPartCopy", k2, " and creates a version of %r" % k if how == "copy-of-deleted-key" else ""))
+                    if how == "copy-of-deleted-key":      # keep the shadow in step with what the gateway now holds
+                        v = vnum(r.headers.get("x-amz-version-id"), new=(sh.status == "Enabled"))
+                        st = sh.stacks.setdefault(k, [])
+                        if sh.status == "Enabled": st.insert(0, (v if isinstance(v, int) else -9, False))
+                        else: sh.stacks[k] = [(None, False)] + [e for e in st if e[0] is not None]
+                return
         if how == "content-md5":
             r = cl.req("PUT", path(k), body=body, headers={"content-md5": base64.b64encode(hashlib.md5(b"other").digest()).decode()})
         elif how == "crc32":
